@@ -120,6 +120,11 @@ def build_solver(spec):
                 vs.append(s.bool_var())
             elif a == "int_var":
                 vs.append(s.int_var(st["lo"], st["hi"]))
+            elif a in ("bool_array", "int_array"):
+                sh = st["shape"]
+                arg = sh[0] if len(sh) == 1 else tuple(sh)
+                arr = s.bool_array(arg) if a == "bool_array" else s.int_array(arg, st["lo"], st["hi"])
+                vs.extend([arr[i] for i in range(sh[0])] if len(sh) == 1 else [arr[y, x] for y in range(sh[0]) for x in range(sh[1])])
             elif a == "ensure":
                 s.ensure(DX.build(st["x"], vs))
             elif a == "add_key":
